@@ -41,6 +41,12 @@ def h_int(a, k, e, f):
     base = a[1] if len(a) > 1 else 10
     if not isinstance(base, int):
         return Opq('int(?, ?)')
+    s = s.strip()            # int() ignores surrounding white space and takes one sign
+    if s[:1] in ('-', '+'):
+        r = h_int([s[1:]] + list(a[1:]), k, e, f) if s[1:2] not in ('-', '+', ' ', '') else None
+        if r is None:
+            raise sp.Raise('ValueError')
+        return Term('neg', (r,)) if s[0] == '-' else r
     pat = {8: r'^(0[oO])?[0-7]+$', 10: r'^[0-9]+$', 16: r'^(0[xX])?[0-9a-fA-F]+$', 2: r'^(0[bB])?[01]+$'}
     if base == 0:
         for b, rx in ((16, r'^0[xX][0-9a-fA-F]+$'), (8, r'^0[oO][0-7]+$'), (2, r'^0[bB][01]+$'), (10, r'^([1-9][0-9]*|0+)$')):
